@@ -58,7 +58,47 @@ def _mems(n):
     return sorted({1, 2, 3, max(1, n - 1), max(1, n), n + 1, 8192})
 
 
+_SPECIAL_FILES = ['/proc/version', '/proc/self/comm', '/proc/sys/kernel/ostype']
+
+
+def run_special_file(case, ctx):
+    """A file whose size, as reported by the file system, is 0 although reading it gives characters (procfs): the text is
+    what reading gives, whichever way it is consumed."""
+    ses = ctx.get_session()
+    path = case['path']
+    viol, inconc = [], []
+    try:
+        with open(path) as f:
+            t = f.read()
+    except OSError:
+        return {'classes': [], 'viol': [], 'inconclusive': [], 'evaluations': 0}
+    if not t or os.stat(path).st_size != 0:
+        return {'classes': [], 'viol': [], 'inconclusive': [], 'evaluations': 0}
+    K = len(ref_lines(t))
+    members = ['! is-empty', 'matches .', '( matches . && matches . )', 'any line : contents matches .',
+               'num-lines == %d' % K, '-transformed-by identity ( matches . && num-lines == %d )' % K,
+               '-transformed-by ( replace ^ > ) matches ^>', '( num-lines == %d && matches . && ! is-empty )' % K,
+               '-transformed-by char-case -to-upper ! is-empty']
+    for mem in (1, 8192):
+        for m in members:
+            text = '[act]\n$ true\n[assert]\ncontents %s : %s\n' % (path, m)
+            d = ses.new_case_dir({'t.case': text})
+            r = ses.run([os.path.join(d, 't.case')], cwd=d, mode='normal', mem_buff_size=mem)
+            ctx.count('c14.special_file_assertions')
+            if r.timed_out:
+                inconc.append('watchdog')
+            elif r.exc is not None or (r.out.strip(), r.rc) != ('PASS', 0):
+                viol.append({'what': 'C14 file %s (size reported as 0, %d characters when read): `contents %s : %s` gives %s/%r; '
+                                     'the text read satisfies it' % (path, len(t), path, m, r.out.strip(), r.rc),
+                             'detail': {'case_text': text, 'mechanism': 'special-file', 'observed': r.brief()}})
+            ses.clean_tmp()
+            ses.drop(d)
+    return {'classes': [('special-file', path)], 'viol': viol, 'inconclusive': inconc, 'evaluations': 2 * len(members)}
+
+
 def cases(tier, seed):
+    for p in _SPECIAL_FILES:
+        yield {'kind': 'special-file', 'path': p}
     texts = _core_texts()
     i = 0
     for t in texts:
@@ -421,6 +461,8 @@ def run_borrowed(case, ctx):
 def run_case(case, ctx):
     if case.get('kind') == 'borrow':
         return run_borrowed(case, ctx)
+    if case.get('kind') == 'special-file':
+        return run_special_file(case, ctx)
     from vf import m4
     ses = ctx.get_session()
     d = ses.new_case_dir()
